@@ -171,6 +171,15 @@ Fixpoint set_once_from (started : bool) (sc : script) : bool :=
   end.
 Definition set_once (sc : script) : bool := set_once_from false sc.
 
+(** status codes in the range where the net/http model above is faithful (below 200: 1xx
+    informational headers do not end the header phase, 0..99 and >= 1000 make WriteHeader panic) *)
+Fixpoint codes_ok (sc : script) : bool :=
+  match sc with
+  | [] => true
+  | Hdr c :: r => (200 <=? c) && (c <=? 999) && codes_ok r
+  | _ :: r => codes_ok r
+  end.
+
 Definition no_abort (sc : script) : Prop := panic_of sc <> Some AbortHandler.
 Definition no_abortb (sc : script) : bool :=
   match panic_of sc with Some AbortHandler => false | _ => true end.
